@@ -734,7 +734,7 @@ fn out_cfg() -> AspCfg {
     AspCfg {
         preds: vec![("p".into(), 1), ("q".into(), 2), ("s".into(), 0), ("notp".into(), 1), ("nota".into(), 0), ("_r".into(), 1), ("existsPath".into(), 1), ("forallq".into(), 0), ("andy".into(), 1), ("orx".into(), 0)],
         vars: vec!["X".into(), "Y".into(), "V1".into(), "I".into(), "Z".into(), "N0".into()],
-        syms: vec!["a".into(), "_c".into(), "nota".into(), "existsY".into(), "forall_".into(), "and1".into(), "ora".into()],
+        syms: vec!["a".into(), "_c".into(), "nota".into(), "existsY".into(), "forall_".into(), "and1".into(), "ora".into(), "and".into(), "or".into(), "forall".into(), "exists".into()],
         num_lo: -3,
         num_hi: 5,
         term_depth: 2,
